@@ -83,3 +83,24 @@ claim("C10", "other",
       "Exact reals over the binary constants 273.15, 459.67, 5/9 present in the source; quick tier uses "
       "5 prefixes (none, k, m, M, micro), thorough all registered SI prefixes.",
       "shadow-symbolic execution of real in_unit/==/< + z3 LRA vs affine oracle", "DESIGN.md 4/C10", "symnum")
+
+claim("C06", "other",
+      "The real Quantity operators + - * / ** == < run on symbolic magnitudes for ordered pairs inside "
+      "groups of convertible spellings (other unit and/or prefix, incl. SI/IEC mixes) and cross-dimension "
+      "pairs; z3 decides for ALL x,y that SI(a op b) equals the operation on SI(a), SI(b) within 1e-5 per "
+      "degree, SI being magnitude times the unit size from the independent declaration oracle applied to "
+      "the very unit object the library returned; ==/< agree with SI values away from ties.",
+      "Exact reals over the code's constants; groups listed in props/c06.py; n in [-3,3].",
+      "shadow-symbolic execution of real operators + z3 NRA vs size oracle", "DESIGN.md 4/C06", "symnum")
+
+claim("C03", "other",
+      "Real Quantity operators (+ - * / ** root neg pos abs == < <= > >= in_unit; Quantity/Unit/number on "
+      "either side; int/float/Decimal kinds) run on symbolic magnitudes; the solver enumerates every "
+      "feasible path and on each the result's dimension (oracle: exponent-tuple arithmetic), unit, numeric "
+      "type and exception class are checked; arithmetic exceptions are confined by z3 to where the "
+      "operation is undefined; incommensurable + - < <= > >= in_unit must raise TypeError/ConversionNotFound "
+      "and == be False on every path.",
+      "Unit family of 12-14 units / 8 dimensions, exponents and degrees in [-4,4] (concretised: "
+      "Unit.__pow__ interns on them); Decimal context rounding outside.",
+      "shadow-symbolic execution of real operators; z3 path enumeration + domain confinement",
+      "DESIGN.md 4/C03", "symnum")
